@@ -315,8 +315,8 @@ func (a *AttributeExpr) Finalize() {
 		}
 		for _, base := range a.Bases {
 			ru, ok := base.(UserType)
-			if !ok {
-				continue
+			if !ok || !IsObject(ru.Attribute().Type) {
+				continue // e.g. a collection: its DSL has turned it into an array since Extend ran
 			}
 			a.Merge(ru.Attribute())
 		}
